@@ -50,7 +50,7 @@ def gen_history(rnd, maxlen):
         elif r < 0.66 and nch:
             ops.append(('chopen', rnd.randrange(nch)))
         elif r < 0.74:
-            ops.append((rnd.choice(['bclose', 'drop']),))
+            ops.append((rnd.choice(['bclose', 'drop', 'dropmid']),))
         else:
             ops.append(('close', rnd.choice(['answers', 'answers', 'silent', 'drop'])))
             dirty = False
